@@ -1,4 +1,4 @@
-// private development binary for C03/C11 (deleted when the checks are registered)
+// vhx-c05 is the private development binary of checks C05, C14, C17.
 package main
 
 import (
@@ -6,10 +6,8 @@ import (
 	"log/slog"
 	"os"
 
+	_ "verif/harness/internal/c05"
 	"verif/harness/internal/vf"
-
-	_ "verif/harness/internal/c03"
-	_ "verif/harness/internal/c11"
 )
 
 func main() {
